@@ -189,3 +189,12 @@ Definition burst_ok (attempts : nat) (decoded : list N) (own : list bool) (err :
   Nat.eqb attempts 2 && (err =? 0)%N &&
   Nat.eqb (length decoded) attempts && all_eq_nonzero decoded &&
   Nat.eqb (length own) attempts && forallb (fun b => b) own.
+
+(** Shutdown with an already expired (or 1 ms) context while an export is in a retry loop against a collector
+    that never recovers (long MaxElapsedTime, back-off <= 50 ms): Shutdown returns, the in-flight export
+    returns an error, the collector sees no request later than 1 s after Shutdown returned, and a later
+    Export fails. *)
+Definition shutdown_expired_ok (shutdown_returned export_returned : bool) (export_err : N)
+                               (late_requests : nat) (later_err : N) : bool :=
+  shutdown_returned && export_returned && negb (export_err =? 0)%N &&
+  Nat.eqb late_requests 0 && negb (later_err =? 0)%N.
